@@ -6,7 +6,7 @@ VERUS_TECH = 'contract-based deductive verification (Verus/Z3) of functions extr
 
 PROPERTIES = {
     'C01': dict(
-        level='proof', verus=['rlabels', 'rbranch', 'rscan', 'rpool', 'rdecode', 'rframes', 'rattrs', 'rtables', 'raccept', 'rtree'], kani=['flags'], enum=['cls'],
+        level='proof', verus=['rlabels', 'rbranch', 'rscan', 'rpool', 'rdecode', 'rframes', 'rattrs', 'rtables', 'raccept', 'rtree', 'rarms'], kani=['flags'], enum=['cls'],
         technique=VERUS_TECH,
         claim='Unbounded proof, for the functions under contract only: the reader offset->Label table (bounds checks, exact lookup, frame, injectivity invariant), '
               'branch-target arithmetic and switch padding, the primitive big-endian readers, the header check (magic, every major version up to 67 whatever the minor), the constant-pool layout (JVMS 4.4, two slots for long/double), '
@@ -129,7 +129,7 @@ PROPERTIES = {
         note='Bounded stand-in, NOT a proof: Kani needs >300 s and >14 GB for one descriptor of length 1 (measured) and Verus has no str/Chars support, so the real functions are run natively on every input up to the stated bound and compared with an independent oracle; inputs beyond the bound are not covered. Real anyhow, scratch copy of the crate.',
         out=['strings longer than the bound', 'unicode names', 'signatures (check_valid accepts everything)']),
     'C16': dict(
-        level='proof', verus=['rlabels', 'cwrite', 'wjump', 'wpool', 'wencode', 'wattrs', 'rskip', 'rbranch', 'rscan', 'rpool', 'rdecode', 'rframes', 'rattrs', 'rtables', 'raccept', 'rtree', 'adiff', 'scope', 'c20len'], kani=[], enum=['desc', 'mapdesc', 'cls'],
+        level='proof', verus=['rlabels', 'cwrite', 'wjump', 'wpool', 'wencode', 'wattrs', 'rskip', 'rbranch', 'rscan', 'rpool', 'rdecode', 'rframes', 'rattrs', 'rtables', 'raccept', 'rtree', 'rarms', 'adiff', 'scope', 'c20len'], kani=[], enum=['desc', 'mapdesc', 'cls'],
         technique=VERUS_TECH + ': implicit safety obligations (overflow, index, unwrap, unreachable, termination)',
         claim='Unbounded proof of panic-freedom and termination for every function extracted for the other properties (Verus generates no-overflow, in-bounds, no-failing-unwrap, unreachable!() unreachable, decreases obligations for each). '
               'Partial: text parsers built on Peekable<Chars>/BufRead are outside the verifier and not covered.',
